@@ -7,7 +7,7 @@ UnpicklingError otherwise - both are tried).  FitInfoFile.__init__ / write / clo
 eagerly, ``while True`` loops unrolled, helpers inlined - so the obligations below do not depend on how the class spells them."""
 from . import alg
 from .alg import sym
-from .interp import Foreign, PyRaise, Hooks, Interp, Obj, Arr, Unk, ClassRef, symarr, num, Raised
+from .interp import Foreign, PyRaise, Hooks, Interp, Obj, Arr, Unk, ClassRef, symarr, num, Raised, BytesSeq
 from .fitmodel import loc
 
 R, W = 'r', 'w'
@@ -21,6 +21,7 @@ class PickleStream(Foreign):
         self.closed = False
         self.raw = []             # anything written that is not a pickle (handle.write)
         self.cut_item = None      # the item the cut falls in, when there is one
+        self.unmodelled = None    # text of a write whose content the model does not know
 
     def sl_method(self, interp, name, args, kw, node):
         if name == 'close':
@@ -31,9 +32,15 @@ class PickleStream(Foreign):
         if name in ('write',) and len(args) == 1 and isinstance(args[0], PickleBytes):
             self.items.append(args[0].obj)          # the bytes of one whole pickle written to the file: one item of the stream
             return None
+        if name in ('write',) and len(args) == 1 and isinstance(args[0], BytesSeq) and all(isinstance(x_, PickleBytes) for x_ in args[0].parts):
+            for x_ in args[0].parts:
+                self.items.append(x_.obj)          # several whole pickles written with one call
+            return None
         if name in ('write',):
             self.raw.append(args)
             self.items.append(('RAW', args))
+            if not (len(args) == 1 and isinstance(args[0], (bytes, str))):
+                self.unmodelled = 'handle.write(%r)' % (args,)          # what was written is not known: nothing can be said about reading it back
             return None
         if name in ('read', 'readline', 'tell', 'seek'):
             return Unk('raw %s on the results file' % name, node)
@@ -306,6 +313,8 @@ def write_records(repo, infos, nlen=None):
     I.call(repo.find_member(ci, 'close')[1], [], selfv=f)
     if I.lost:
         return st, I, Unk('a call of the writer was not modelled (%s): what the stream holds is not all that was written' % (str(I.lost[0])[:100],))
+    if st.unmodelled:
+        return st, I, Unk('the writer wrote data the model does not know: %s' % st.unmodelled[:100])
     return st, I, None
 
 
